@@ -227,7 +227,7 @@ func cmdCheck(args []string) int {
 		return 2
 	}
 	loadS := time.Since(tl).Seconds()
-	nativeHooks, err = P.GenerateNativeHooks(repoDir, filepath.Join(outDir, "nativehooks"))
+	nativeHooks, err = P.GenerateNativeHooks(repoDir, filepath.Join(outDir, "nativehooks"), usedSetsOf(all))
 	if err != nil {
 		fmt.Println(err)
 		return 2
@@ -273,6 +273,8 @@ func cmdCheck(args []string) int {
 		if cfg.Thorough && *nwit == 8 {
 			cfg.Witnesses = 64
 		}
+		cfg.ExactNonlinear = o.Opts["exact"] == "1"
+		cfg.ProfileForks = os.Getenv("VERIF_FORKS") != ""
 		if *logSMT {
 			cfg.LogDir = filepath.Join(outDir, "smt")
 		}
@@ -388,7 +390,7 @@ func cmdCheck(args []string) int {
 			}
 		}
 		// translator validation: per-path witness inputs through the natively compiled harness
-		if len(R.Witnesses) > 0 && !*noReplay {
+		if len(R.Witnesses) > 0 && !*noReplay && o.Opts["tv"] != "off" {
 			n, mism, err := validateWitnesses(o, R.Witnesses, genDir, outDir)
 			ev.TVSamples, ev.TVMismatches = n, mism
 			if err != nil {
@@ -413,6 +415,23 @@ func cmdCheck(args []string) int {
 		}
 		fmt.Printf("%-8s %-22s paths=%d ok=%d infeasible=%d inconclusive=%d asserts=%d/%d(+%d const) sat/unsat/unk=%d/%d/%d solver=%.1fs wall=%.1fs\n",
 			o.ID, verdict, R.Paths, R.OK, R.Infeasible, R.Inconclusive, R.AssertsDischarged, R.AssertsChecked, R.AssertsConst, R.Sat, R.Unsat, R.Unknown, R.SolverSecs, R.WallSecs)
+		if len(R.ForkSites) > 0 {
+			type kv struct {
+				k string
+				v int
+			}
+			var l []kv
+			for k, v := range R.ForkSites {
+				l = append(l, kv{k, v})
+			}
+			sort.Slice(l, func(i, j int) bool { return l[i].v > l[j].v })
+			for i, x := range l {
+				if i >= 25 {
+					break
+				}
+				fmt.Printf("   forks %6d  %s\n", x.v, x.k)
+			}
+		}
 		switch verdict {
 		case "violated":
 			exit = 1
@@ -481,6 +500,23 @@ func cmdCheck(args []string) int {
 	return exit
 }
 
+// usedSetsOf: harness package dir -> override sets used by its obligations.
+func usedSetsOf(all []sx.Obligation) map[string]map[string]bool {
+	r := map[string]map[string]bool{}
+	for _, o := range all {
+		for _, s := range strings.Split(o.Opts["use"], ",") {
+			if s == "" {
+				continue
+			}
+			if r[o.Pkg] == nil {
+				r[o.Pkg] = map[string]bool{}
+			}
+			r[o.Pkg][s] = true
+		}
+	}
+	return r
+}
+
 func keysOf(m map[string]bool) []string {
 	r := []string{}
 	for k := range m {
@@ -513,7 +549,8 @@ func nativeReplay(cexPath, genDir string) (bool, string) {
 		if err != nil {
 			return false, "HARNESS-ERROR: " + err.Error()
 		}
-		nativeHooks, err = P.GenerateNativeHooks(repoDir, filepath.Join(filepath.Dir(cexPath), "nativehooks"))
+		all, _ := sx.Discover(filepath.Join(verifDir, "harness"))
+		nativeHooks, err = P.GenerateNativeHooks(repoDir, filepath.Join(filepath.Dir(cexPath), "nativehooks"), usedSetsOf(all))
 		if err != nil {
 			return false, err.Error()
 		}
